@@ -496,7 +496,7 @@ static J base_plan(const std::string &prop, const char *variant, uint64_t seed, 
 static J plan_c07(uint64_t seed, const std::string &tier, bool secrets, const std::string &prop) {
   Rng g(seed, "plan"); Pool &pool = pool_for(seed >> 6);
   J p = base_plan(prop, "asan", seed, tier, g);
-  if (tier == "thorough" && prop == "C07" && Rng(seed, "work-marathon").chance(1, 40000)) {
+  if (tier == "thorough" && prop == "C07" && seed % 40000 == 12345) {   // (fixed residue: five such plans in the thorough tier's 200000 seeds)
     // Cumulative work in one process (what a login daemon accumulates in an afternoon): 130-170 bcrypt hashes at cost 12
     // (2^19 .. 2^19.4 Eksblowfish rounds in total), the same request through all entry points over two objects, with the
     // application scribbling in between.  About a minute per pass; thorough tier only.
